@@ -33,7 +33,7 @@ theorem encLabelBits_eq (label : Key) (m : Nat) : encLabelBits label (m : Int) =
   · split <;> simp [Lbl.enc]
 
 theorem canonLbl_enc_length (label : Key) (m : Nat) :
-    ((canonLbl label m).enc m).length ≤ label.length + 9 + minBitsRequired m := by
+    ((canonLbl label m).enc m).length ≤ label.length + 2 + minBitsRequired m := by
   unfold canonLbl
   split
   · simp [Lbl.enc]; omega
@@ -149,9 +149,10 @@ theorem splitKeys_sorted {V : Type} (p : Key) : ∀ (K : List (Key × V)), Sorte
 /-! ### encodeMap on a sorted list builds a valid tree -/
 
 /-- hypothesis on the value codec for one value: `enc` produces `pay v`, the leaf cell has room for it together with
-the longest label of an `n`-bit dictionary (label ≤ n + 9 + bitlength n bits is a coarse bound), and `dec` reads it back -/
+the longest label of an `n`-bit dictionary (2 + bitlength n + n bits: hml_long of a whole key — the bound is attained,
+e.g. by a single key with mixed bits), and `dec` reads it back -/
 def Fits {V : Type} (C : Codec V) (pay : V → List Bool × List Cell) (n : Nat) (v : V) : Prop :=
-  C.enc v = .ok (pay v) ∧ (pay v).1.length + n + 9 + minBitsRequired n ≤ 1023 ∧ (pay v).2.length ≤ 4 ∧
+  C.enc v = .ok (pay v) ∧ (pay v).1.length + n + 2 + minBitsRequired n ≤ 1023 ∧ (pay v).2.length ≤ 4 ∧
     DecodesValue C pay v
 
 theorem mkCell_ok (bits : List Bool) (refs : List Cell) (hb : bits.length ≤ 1023) (hr : refs.length ≤ 4) :
